@@ -25,14 +25,15 @@ pub struct Entry {
     un: UnFn,
     shift: fn(usize, u128, u32) -> Out,
     fold: fn(usize, &[u128]) -> Out,
+    limits: fn() -> [u128; 10],
 }
 
 macro_rules! entry {
     ($T:ty, S) => {
-        Entry { l: <$T as Lay>::LAYOUT, bin: bin::<$T>, un: un_signed::<$T>, shift: shift::<$T>, fold: fold::<$T> }
+        Entry { l: <$T as Lay>::LAYOUT, bin: bin::<$T>, un: un_signed::<$T>, shift: shift::<$T>, fold: fold::<$T>, limits: <$T as Lay>::limits }
     };
     ($T:ty, U) => {
-        Entry { l: <$T as Lay>::LAYOUT, bin: bin::<$T>, un: un::<$T>, shift: shift::<$T>, fold: fold::<$T> }
+        Entry { l: <$T as Lay>::LAYOUT, bin: bin::<$T>, un: un::<$T>, shift: shift::<$T>, fold: fold::<$T>, limits: <$T as Lay>::limits }
     };
 }
 pub const SHIFT_OPS: [&str; 8] = ["checked_shl", "wrapping_shl", "overflowing_shl", "shl", "checked_shr", "wrapping_shr", "overflowing_shr", "shr"];
@@ -124,7 +125,9 @@ impl Prop {
         let handled = o.form != Form::Plain;
         match self {
             Prop::C01 => matches!(o.base, "mul" | "div"),
-            Prop::C02 => handled && matches!(o.base, "neg" | "abs" | "add" | "sub" | "mul" | "div" | "mul_int" | "div_int"),
+            // the plain forms (operators by value / by reference / assigning, `abs()`, `-x`, `signum()`) are judged
+            // where the exact result is representable: they are the same operation without overflow handling
+            Prop::C02 => (handled && matches!(o.base, "neg" | "abs" | "add" | "sub" | "mul" | "div" | "mul_int" | "div_int")) || (!handled && matches!(o.base, "neg" | "abs" | "signum" | "add" | "sub" | "mul_int" | "div_int")),
             Prop::C06 => matches!(o.base, "ceil" | "floor" | "round" | "round_ties_to_even" | "round_to_zero" | "int" | "frac"),
             Prop::C07 => matches!(o.base, "rem" | "rem_euclid" | "div_euclid" | "rem_int" | "rem_euclid_int" | "div_euclid_int"),
             Prop::C11 => true,
@@ -207,10 +210,6 @@ fn related_pairs(l: Layout, ys: &[u128]) -> Vec<(u128, std::sync::Arc<Vec<u128>>
     order.into_iter().map(|a| (a, Arc::new(map.remove(&a).unwrap()))).collect()
 }
 
-/// `c11`: the profile-independence pass executes every case twice (and every permitted overflow costs a caught
-/// panic in the checking build), so its thorough domain is thinner where the full one is most expensive: the
-/// 16-bit binary domain is V16 x B_quick and the 128-bit one B_quick x B_quick. The full thorough
-/// domains run in both builds under C01/C02/C06/C07. `VERIF_C11_FULL=1` restores them here.
 /// Powers of two at *every* exponent (the quick boundary alphabet only has every (w/16)-th): P = +-(2^k + {-1, 0, 1})
 /// for all k, paired in both orders with (i) a short list S of essential partners and (ii) the powers of two at
 /// which the product or quotient sits on the type's overflow or underflow boundary (2^(i+j-f) next to 2^(w-1) or
@@ -264,6 +263,10 @@ fn power_pairs(l: Layout, b: &[u128]) -> (Vec<u128>, Vec<(u128, std::sync::Arc<V
     (pvals, rel)
 }
 
+/// `c11`: the profile-independence pass executes every case twice (and every permitted overflow costs a caught
+/// panic in the checking build), so its thorough domain is thinner where the full one is most expensive: the
+/// 16-bit binary domain is V16 x B_quick and the 128-bit one B_quick x B_quick. The full thorough
+/// domains run in both builds under C01/C02/C06/C07. `VERIF_C11_FULL=1` restores them here.
 fn domain(l: Layout, tier: Tier, c11: bool) -> Domain {
     use std::sync::Arc;
     let thin = c11 && tier == Tier::Thorough && std::env::var("VERIF_C11_FULL").is_err();
@@ -365,6 +368,42 @@ fn run_job(tab: &[Entry], job: &Job, prop: Prop, tier: Tier) -> JobOut {
     let mut judged = 0u64;
     let items: Vec<(u128, &[u128])> = if job.rel.is_empty() { job.a.iter().map(|&a| (a, &job.b[..])).collect() } else { job.rel.iter().map(|(a, bs)| (*a, &bs[..])).collect() };
     for (a, bs) in items {
+        if job.unary && prop == Prop::C02 {
+            // `Sum` (owned and by reference) is addition through an iterator: [a] sums to a, [a, b] to a + b where
+            // that is representable, the empty sum is 0
+            states += 1;
+            let mut seqs: Vec<(Vec<u128>, Z)> = vec![(vec![a], l.z(a))];
+            for &b in job.partners.iter().chain([a, l.max_raw(), l.min_raw(), l.max_raw() >> (l.w / 2)].iter()) {
+                seqs.push((vec![a, b], l.z(a).add(l.z(b))));
+                seqs.push((vec![b, a], l.z(a).add(l.z(b))));
+            }
+            if a == 0 {
+                seqs.push((vec![], Z::ZERO));
+            }
+            for (xs, exact) in seqs {
+                if !l.fits(&exact) {
+                    continue;
+                }
+                let exp = Out::V(l.wrap(&exact));
+                for which in 0..2 {
+                    let got = subject(|| (e.fold)(which, &xs)).unwrap_or(Out::Panic);
+                    transitions += 1;
+                    judged += 1;
+                    *rep.extra.entry("sum_folds_judged".into()).or_default() += 1;
+                    if got != exp {
+                        rep.violation(Violation {
+                            key: format!("{} {}", l.class(), FOLD_OPS[which]),
+                            diff: if got == Out::Panic { "unexpected-panic".into() } else { "value".into() },
+                            case: format!("arith {} {} {}", l.name(), FOLD_OPS[which], xs.iter().map(|x| format!("{:#x}", x)).collect::<Vec<_>>().join(" ")),
+                            observed: got.to_string(),
+                            expected: exp.to_string(),
+                            note: format!("sum of the sequence {:x?} through core::iter::Sum; exact={}", xs, exact),
+                            kf: None,
+                        });
+                    }
+                }
+            }
+        }
         if job.unary && prop == Prop::C01 {
             // `Product` (owned and by reference) is multiplication through an iterator: the product of the one-element
             // sequence [a] is a, that of [a, b] is floor(a * b / 2^frac) whenever that is representable (one
@@ -622,6 +661,28 @@ fn cmd_run(args: &Args) {
     let results = run_jobs(&jobs, |j| run_job(&tab, j, prop, tier));
     let mut rep = Report::new("arith", &args.get("prop").unwrap(), tier.name());
     rep.notes = notes;
+    if prop == Prop::C02 {
+        // the bounds every saturating form clamps to, and the layout constants, as the library itself reports them
+        // (inherent items and `Fixed` trait items)
+        for e in &tab {
+            let l = e.l;
+            let got = subject(|| (e.limits)());
+            let exp = [l.int_bits() as u128, l.frac as u128, l.int_bits() as u128, l.frac as u128, l.min_raw(), l.max_raw(), l.int_bits() as u128, l.frac as u128, l.min_raw(), l.max_raw()];
+            rep.transitions += 10;
+            rep.judged += 10;
+            if got != Some(exp) {
+                rep.violation(Violation {
+                    key: format!("{} limits", l.class()),
+                    diff: "limits".into(),
+                    case: format!("arith {} limits", l.name()),
+                    observed: format!("{:x?}", got),
+                    expected: format!("{:x?}", exp),
+                    note: "[INT_NBITS, FRAC_NBITS, int_nbits(), frac_nbits(), min_value bits, max_value bits] inherent, then the four functions through the Fixed trait".into(),
+                    kf: None,
+                });
+            }
+        }
+    }
     let mut digs: BTreeMap<(usize, usize), std::collections::hash_map::DefaultHasher> = BTreeMap::new();
     let mut returned: Vec<(String, Out)> = vec![];
     let mut layouts = std::collections::BTreeSet::new();
@@ -710,6 +771,14 @@ fn cmd_replay(args: &[String]) -> i32 {
     let l = Layout::parse(&args[0]).expect("layout");
     let tab = table();
     let e = tab.iter().find(|e| e.l == l).expect("layout not found");
+    if args[1] == "limits" {
+        let got = subject(|| (e.limits)());
+        let exp = [l.int_bits() as u128, l.frac as u128, l.int_bits() as u128, l.frac as u128, l.min_raw(), l.max_raw(), l.int_bits() as u128, l.frac as u128, l.min_raw(), l.max_raw()];
+        println!("profile:  {}\ncall:     {} INT_NBITS FRAC_NBITS int_nbits() frac_nbits() min_value() max_value() (inherent, then Fixed trait)\nobserved: {:x?}\nexpected: {:x?}", vcore::profile_name(), l.name(), got, exp);
+        let ok = got == Some(exp);
+        println!("{}", if ok { "AGREES" } else { "DIFFERS" });
+        return if ok { 0 } else { 1 };
+    }
     if let Some(i) = SHIFT_OPS.iter().position(|n| *n == args[1]) {
         let got = subject(|| (e.shift)(i, parse_hex(&args[2]), args[3].parse().unwrap())).unwrap_or(Out::Panic);
         println!("profile:  {}\ncall:     {} {} {} {}\nobserved: {}\n(no property states a value for shifts of plain fixed-point numbers; compare the two profiles)", vcore::profile_name(), l.name(), args[1], args[2], args[3], got);
@@ -719,15 +788,17 @@ fn cmd_replay(args: &[String]) -> i32 {
         let xs: Vec<u128> = args[2..].iter().map(|s| parse_hex(s)).collect();
         let got = subject(|| (e.fold)(which, &xs)).unwrap_or(Out::Panic);
         println!("profile:  {}\ncall:     {} {} {:x?}\nobserved: {}", vcore::profile_name(), l.name(), args[1], xs, got);
-        if which >= 2 && xs.len() <= 2 {
-            let exact = match xs.len() {
-                0 => Z::pow2(l.frac),
-                1 => l.z(xs[0]),
-                _ => l.z(xs[0]).mul(l.z(xs[1])).shr_floor(l.frac),
+        if xs.len() <= 2 {
+            let exact = match (xs.len(), which >= 2) {
+                (0, true) => Z::pow2(l.frac),
+                (0, false) => Z::ZERO,
+                (1, _) => l.z(xs[0]),
+                (_, true) => l.z(xs[0]).mul(l.z(xs[1])).shr_floor(l.frac),
+                (_, false) => l.z(xs[0]).add(l.z(xs[1])),
             };
             if l.fits(&exact) {
                 let exp = Out::V(l.wrap(&exact));
-                println!("expected: {} (exact product {})", exp, exact);
+                println!("expected: {} (exact {})", exp, exact);
                 if got != exp {
                     println!("DIFFERS");
                     return 1;
